@@ -1,4 +1,5 @@
 import AkVerif.Lemmas.Assign
+import AkVerif.Lemmas.StickyAlg
 /-!
 # C14 — assignors give each subscribed partition exactly one subscribed owner, balanced
 
@@ -328,6 +329,71 @@ theorem kip54B_sound (inp : Input) (out : Output) (h : kip54B inp out = true)
   · rcases h1 b hb with h2 | h2
     · simp [hs] at h2
     · simpa using h2
+
+/-! ## sticky assignor: the Lean port (`Model/StickyAlg.lean`, tied to the code by T-diff) -/
+
+open AkVerif.StickyAlg in
+/-- **nothing else is assigned** — for every cluster, every list of members (any subscriptions,
+    any previous assignment carried in the user data), every oracle for the one set-iteration
+    choice and every fuel: whatever the port of `StickyPartitionAssignor.assign` hands to a member
+    is a partition listed in the metadata of a topic that member subscribes to.
+    (Invariant `Pot`: current assignment, owner map and movement records only ever mention
+    potential partitions; preserved by assignment, movement incl. the swap-avoiding
+    `get_partition_to_be_moved`, the revert, and the fixed-consumer bookkeeping.) -/
+theorem sticky_nothing_else (fuel : Nat) (parts : List (Topic × List Nat)) (members : List MemberIn)
+    (oracle : List TP) (hparts : (parts.map (·.1)).Nodup)
+    (out : Output) (left : Nat) (h : StickyAlg.assign fuel parts members oracle = .ok out left)
+    (m : Member) (items : List (Topic × List Nat)) (hm : (m, items) ∈ out)
+    (t : Topic) (ps : List Nat) (hi : (t, ps) ∈ items) (p : Nat) (hp : p ∈ ps) :
+    ∃ mem, members.find? (·.id == m) = some mem ∧ t ∈ mem.subs ∧
+      ∃ all, alGet parts t = some all ∧ p ∈ all := by
+  unfold StickyAlg.assign at h
+  simp only at h
+  have hpot0 := initState_pot parts members oracle hparts
+  generalize hs0 : populatePartitionsToReassign (populateSortedPartitions (initState parts members oracle)) = s0 at h hpot0
+  have hc0 : s0.c2p = members.map (fun m => (m.id, potentialOf parts m)) := by
+    rw [← hs0]
+    show (populateSortedPartitions (initState parts members oracle)).c2p = _
+    rw [(populateSorted_fields _).2.2.1, initState_c2p]
+  cases hb : balance fuel s0 with
+  | none => rw [hb] at h; cases h
+  | some s1 =>
+    rw [hb] at h
+    simp only at h
+    have hb1 := balance_pot fuel s0 s1 hpot0 hb
+    split at h
+    · cases h
+    · split at h
+      · cases h
+      · injection h with h1 _
+        subst h1
+        obtain ⟨mem, hmem, heq⟩ := List.mem_map.mp hm
+        injection heq with e1 e2
+        subst e1; subst e2
+        -- the item lists only partitions held by the member …
+        have hheld : ∀ k ∈ ps, (t, k) ∈ curOf s1 mem.id := by
+          have := finalFor_sound (curOf s1 mem.id) [] (curOf s1 mem.id)
+            (by intro x hx; cases hx) (by intro q hq; exact hq) (t, ps) hi
+          exact this
+        -- … which are potential partitions of that member
+        have hpot : (t, p) ∈ potOf s1 mem.id := mem_curOf s1 hb1.1 mem.id (t, p) (hheld p hp)
+        unfold potOf alGetD at hpot
+        rw [hb1.2, hc0, alGet_map_find] at hpot
+        cases hfind : members.find? (·.id == mem.id) with
+        | none => simp [hfind] at hpot
+        | some m0 =>
+          simp only [hfind, Option.map_some, Option.getD_some] at hpot
+          refine ⟨m0, rfl, ?_⟩
+          unfold potentialOf at hpot
+          obtain ⟨t', ht', hin⟩ := List.mem_flatMap.mp hpot
+          cases hget : alGet parts t' with
+          | none => simp [hget] at hin
+          | some all =>
+            simp only [hget] at hin
+            obtain ⟨k, hk, heq⟩ := List.mem_map.mp hin
+            injection heq with e1 e2
+            subst e1; subst e2
+            exact ⟨ht', all, hget, hk⟩
 
 /-! ## non-vacuity: concrete inputs meet the hypotheses and the models compute -/
 def exInp : Input := ⟨[(0, [0, 1, 2]), (1, [0, 1])], [(1, [0, 1]), (0, [0])]⟩
